@@ -1,6 +1,8 @@
 """C07 - hub delivery. Hub.tla (R, small-step) model-checked (E0), its behaviours replayed into the
 real Hub (E1), HubImpl.tla checked for the same properties, recorded traces validated (E2)."""
-from harness import tlc, core
+import os
+
+from harness import tlc, core, hubtrace
 from harness.tlaval import to_json
 from harness.adapters import hub as A
 
@@ -49,8 +51,8 @@ def run(ctx):
         gcfg = 'GEN_Hub_quick.cfg' if quick else 'GEN_Hub_thorough.cfg'
         res, g = tlc.dump_graph(wd, 'MC_Hub.tla', gcfg, timeout=3000, coverage=True)
         ctx.add_tlc('E1 generation ' + gcfg, res, gcfg)
-        ctx.check_vacuity(gcfg, res, ['Subscribe', 'Broadcast', 'DelayEnter', 'DelayExit', 'IgnoreEnter',
-                                      'IgnoreExit', 'DeliverNext', 'HandlerReturn', 'FlushNext'])
+        ctx.check_vacuity(gcfg, res, ['Subscribe', 'BroadcastM', 'DelayEnter', 'DelayExit', 'IgnoreEnter',
+                                      'IgnoreExit', 'DeliverNext', 'HandlerReturn', 'FlushNextAcc'])
         paths = g.behaviours()
         _replay(ctx, _plans(g, paths), 'graph ' + gcfg)
         ctx.cov['exhaustive'] = True
@@ -63,11 +65,104 @@ def run(ctx):
         res, behs = tlc.simulate(wd, 'MC_Hub.tla', scfg, num=n, depth=depth, seed=ctx.seed + 1, timeout=3000)
         ctx.cov['tlc_runs'].append({'label': 'E1 simulation ' + scfg, 'behaviours': len(behs), 'depth': depth})
         _replay(ctx, _plans_from_sim(behs), 'simulate ' + scfg)
+        _e2(ctx, wd, quick)
     ctx.assume('handlers do not raise; blocks are closed in LIFO order (context managers)')
     ctx.assume('E1 uses distinct priorities so that the delivery order is determined; equal priorities are covered by E2')
 
 
+REPO_TESTS_QUICK = ['glue/core/tests/test_hub.py', 'glue/core/tests/test_subset_group.py', 'glue/core/tests/test_data_collection.py',
+                    'glue/core/tests/test_command.py', 'glue/core/tests/test_edit_subset_mode.py']
+REPO_TESTS_THOROUGH = REPO_TESTS_QUICK + ['glue/core/tests/test_application_base.py', 'glue/core/tests/test_state.py',
+                                          'glue/core/tests/test_data.py', 'glue/core/tests/test_link_manager.py',
+                                          'glue/core/tests/test_subset.py', 'glue/core/tests/test_data_combo_helper.py',
+                                          'glue/viewers/image/tests', 'glue/viewers/scatter/tests', 'glue/viewers/histogram/tests',
+                                          'glue/viewers/profile/tests', 'glue/viewers/common/tests', 'glue/dialogs', 'glue/plugins']
+
+
+def _e2(ctx, wd, quick):
+    """code -> spec: executions of the real Hub recorded by harness/glue_tracer.py, validated with TLC (Trace_Hub.tla)"""
+    repo = core.use_repo()
+    count, nops = (400, 40) if quick else (6000, 80)
+    traces = []
+    per = (count + 15) // 16
+    jobs = [(ctx.seed * 100000 + k * per, per, nops) for k in range(16)]
+    import concurrent.futures as cf
+    with cf.ThreadPoolExecutor(16) as ex:
+        futs = [ex.submit(hubtrace.record_driver, wd.file('drv%d.json' % k), j[0], j[1], j[2], repo) for k, j in enumerate(jobs)]
+        ftest = ex.submit(hubtrace.record_repo_tests, wd.file('repotests.json'), REPO_TESTS_QUICK if quick else REPO_TESTS_THOROUGH, repo)
+        for f in futs:
+            traces += f.result()
+        rtraces, tail = ftest.result()
+    for t in rtraces:
+        t['source'] = 'repository tests'
+    nd = len(traces)
+    if len(rtraces) < 20:
+        raise core.MachineryFailure('tracer recorded only %d hub traces from the repository tests:\n%s' % (len(rtraces), tail))
+    accepted, rejected, states, kept = hubtrace.validate(wd, traces + rtraces)
+    ctx.add_traces(kept, accepted)
+    nev = sum(min(len(t['events']), hubtrace.MAX_EVENTS) for t in traces + rtraces)
+    ctx.cov['tlc_runs'].append({'label': 'E2 Trace_Hub.tla', 'traces': kept, 'driver_traces': nd, 'repo_test_traces': len(rtraces),
+                                'events': nev, 'distinct_states': states, 'rejected': len(rejected)})
+    ctx.cov['states'] = ctx.cov.get('states', 0) + states
+    for t, eix in rejected:
+        ev = t['events']
+        got = _short(ev[eix - 1]) if eix <= len(ev) else 'end of trace'
+        ctx.report(core.Divergence({'trace': t, 'first_unmatched': eix}, eix, 'trace event',
+                                   'an event allowed by Hub.tla after ' + ' ; '.join(_short(e) for e in ev[max(0, eix - 4):eix - 1]),
+                                   got, kind='trace:' + (ev[eix - 1]['ev'] if eix <= len(ev) else 'end'),
+                                   note='recorded execution of the real Hub rejected by Trace_Hub.tla (source: %s)' % t.get('source', 'driver seed %s' % t.get('seed'))))
+    if traces:
+        t = traces[len(traces) // 2]
+        ctx.sample({'source': 'E2 driver trace seed %s' % t.get('seed'), 'events': [_short(e) for e in t['events'][:25]]})
+    # binding self-test: impossible variants of recorded traces must be rejected
+    bad, kinds = [], {}
+    for t in traces[:60] + rtraces[:60]:
+        for kind, ev in hubtrace.corruptions(t):
+            if kinds.get(kind, 0) < 6:
+                kinds[kind] = kinds.get(kind, 0) + 1
+                bad.append({'events': ev, 'classes': t['classes'], 'kind': kind})
+    need = ['fate', 'deliver_to_stranger', 'filter_outcome', 'wrong_subscription', 'lost_queued', 'flush_order', 'no_delay',
+            'deliver_while_delayed', 'delivered_twice']
+    missing = [k for k in need if k not in kinds]
+    if missing:
+        raise core.MachineryFailure('binding self-test: no recorded trace exhibits the situation needed for %s' % missing)
+    a2, rej2, st2, kept2 = hubtrace.validate(wd, bad, batch=1000, domain=False)
+    if a2 != 0 or len(rej2) != len(bad) or kept2 != len(bad):
+        rejected_ids = set(id(r[0]) for r in rej2)
+        raise core.MachineryFailure('binding self-test: %d of %d impossible traces were ACCEPTED by Trace_Hub.tla (kinds %s)' % (
+            a2, len(bad), sorted(set(b['kind'] for b in hubtrace.prepare(bad, False) if id(b) not in rejected_ids))))
+    ctx.cov['tlc_runs'].append({'label': 'E2 binding self-test', 'corrupted_traces': len(bad), 'rejected': len(rej2), 'kinds': kinds})
+
+
+def _short(e):
+    return e['ev'] + '(' + ','.join('%s=%s' % (k, e[k]) for k in ('l', 'c', 'p', 'm', 'fate', 'exc') if k in e) + ')'
+
+
 def replay(div):
+    if 'trace' in div.behaviour:
+        return _replay_trace(div)
+    return _replay_plan(div)
+
+
+def _replay_trace(div):
+    """re-record the execution (driver seed) on the current tree, or re-validate the stored trace"""
+    t = div.behaviour['trace']
+    with tlc.Workdir() as wd:
+        if 'seed' in t:
+            traces = hubtrace.record_driver(wd.file('drv.json'), t['seed'], 1, t.get('nops', 40), core.use_repo())
+        else:
+            traces = [t]
+        accepted, rejected, states, kept = hubtrace.validate(wd, traces)
+    if not rejected:
+        print('replay: trace accepted')
+        return 0
+    print('VIOLATION property=C07 replay=(given)')
+    for tr, eix in rejected:
+        print('  first unmatched event %d: %s' % (eix, tr['events'][max(0, eix - 4):eix]))
+    return 1
+
+
+def _replay_plan(div):
     res = A.replay_one(div.behaviour['plan'], div.behaviour.get('log'))
     if res is None:
         print('replay: behaviour conforms')
